@@ -196,11 +196,10 @@ def run(pm, ctx):
     # ---------------- R3
     gr = pm.func(JC + '._generate_route')
     pi = path_info(gr.node)
-    lp = [l for l in own_nodes(gr.node) if isinstance(l, ast.For) and
-          unparse(l.iter) == 'route_schema.fields']
-    ok = len(lp) == 1 and any(isinstance(c, ast.Call) and unparse(c) ==
-                              'additional_args.append(fmt_obj(route.attrs[field.name]))'
-                              for c in ast.walk(lp[0]))
+    from ..model import element_sites
+    lp = [l for l in element_sites(gr.node) if unparse(l['iter']) == 'route_schema.fields']
+    ok = len(lp) == 1 and unparse(lp[0]['elt']) == 'fmt_obj(route.attrs[field.name])' and \
+        not lp[0]['ifs']
     ctx.check('C16-R3', ok, 'attribute values are appended in route-schema field order', gr.loc,
               msg='js_client no longer builds the attribute arguments by iterating '
                   'route_schema.fields', key='C16-R3|%s|attrs' % gr.qualname)
